@@ -107,9 +107,12 @@ class Module(object):
         except SyntaxError as ex:
             raise AnalysisError("module %s does not parse: %s" % (name, ex))
         self.inlined = None
+        self.renamed = {}
         if inline:
             from .inline import inline_module
             self.inlined = inline_module(name, self.tree)
+            from .roles import canonicalize
+            self.renamed = canonicalize(name, self.tree)
         self.imports = {}     # local name -> dotted target
         self.assigns = {}     # module-level name -> value expr (last wins)
         self.top = []         # effective top-level statements (py3 branch)
@@ -148,6 +151,33 @@ class Module(object):
                 self.top.append(st)
 
 
+def _identity_param(f):
+    """index of the parameter that the function returns on every returning path (it may also raise), else None"""
+    rets = []
+    stack = list(f.node.body)
+    while stack:
+        n = stack.pop()
+        if isinstance(n, (ast.FunctionDef, ast.AsyncFunctionDef, ast.ClassDef, ast.Lambda)):
+            continue
+        if isinstance(n, ast.Return):
+            rets.append(n)
+        stack.extend(ast.iter_child_nodes(n))
+    if not rets or not isinstance(f.node.body[-1], (ast.Return, ast.Raise)):
+        return None
+    names = set(dump(r.value) if r.value is not None else None for r in rets)
+    if len(names) != 1:
+        return None
+    p = names.pop()
+    if p not in f.params or isinstance(rets[0].value, ast.Name) is False:
+        return None
+    for n in ast.walk(f.node):
+        if isinstance(n, ast.Name) and n.id == p and isinstance(n.ctx, (ast.Store, ast.Del)):
+            return None
+    a = f.node.args
+    pos = [x.arg for x in a.posonlyargs + a.args]
+    return pos.index(p) if p in pos else None
+
+
 class Program(object):
     def __init__(self, sources):
         self.sources = dict(sources)
@@ -165,6 +195,15 @@ class Program(object):
             c.bases = [self.resolve(c.module, b) or dump(b) for b in c.node.bases]
         for f in self.funcs.values():
             f.import_names = frozenset(self.modules[f.module].imports)
+        # identity functions: module-level functions every value-returning exit of which returns one (never rebound) parameter
+        ident = {}
+        for f in self.funcs.values():
+            if f.cls is None and f.outer is None:
+                i = _identity_param(f)
+                if i is not None:
+                    ident.setdefault(f.module, {})[f.name] = i
+        for f in self.funcs.values():
+            f.identity_callees = ident.get(f.module, {})
 
     # ---- indexing -------------------------------------------------------
     def _index(self, m, body, prefix, cls, outer):
